@@ -237,7 +237,18 @@ class FramingDriver:
     def project(self):
         p = self.p
         inst = self.inst
-        ids = [inst.ids.get(r, 0) for r in p.raws]
+        # identity of a delivered message = its bytes; the same bytes may occur more than once in a stream (a message object
+        # sent twice): the k-th delivery of those bytes is the k-th message carrying them
+        occ = {}
+        for i, m in enumerate(inst.msgs, 1):
+            occ.setdefault(m[0], []).append(i)
+        seen = {}
+        ids = []
+        for r in p.raws:
+            lst = occ.get(r, [])
+            k = seen.get(r, 0)
+            seen[r] = k + 1
+            ids.append(lst[k] if k < len(lst) else 0)
         st = {
             'pos': self.pos,
             'authed': p.nauth,
